@@ -25,6 +25,9 @@ def euclidean_distance(X, Y=None):
     """
     if Y is None:
         Y = X
+    # squares of (narrow or unsigned) integer coordinates must not wrap around
+    X = np.asarray(X, dtype=np.float64)
+    Y = np.asarray(Y, dtype=np.float64)
     if X.shape[1] != Y.shape[1]:
         raise ValueError("incompatible dimension for X and Y matrices")
 
